@@ -1,11 +1,13 @@
 """C19 — container headers behave as the abstract map / bit-set / sequences they model."""
 from vf import Check
-import c19_htab, c19_sets
+import c19_htab, c19_sets, c19_dataflow
 ck = Check("C19")
-ck.proof_gate(["MirVerif.Props.C19.Htab", "MirVerif.Props.C19.Bitmap", "MirVerif.Props.C19.Seq"],
-              support_modules=c19_htab.SUPPORT + c19_sets.SUPPORT,
+ck.proof_gate(["MirVerif.Props.C19.Htab", "MirVerif.Props.C19.Bitmap", "MirVerif.Props.C19.Seq",
+               "MirVerif.Props.C19.Dataflow"],
+              support_modules=c19_htab.SUPPORT + c19_sets.SUPPORT + c19_dataflow.SUPPORT,
               bridge_modules=getattr(c19_htab, "BRIDGE", []),
-              exes=["mirdrv_c19", "mirdrv_c19b"])
+              exes=["mirdrv_c19", "mirdrv_c19b", "mirdrv_c19d"])
 c19_htab.run(ck)
 c19_sets.run(ck)
+c19_dataflow.run(ck)
 ck.finish()
